@@ -78,3 +78,7 @@ def attach_bounded_witnesses(rep):
                     if o.status == "undecided":
                         o.status = "failed"  # the solver was undecided, the concrete replay is what makes it a violation
                     break
+
+
+def ob_role_query(rep, world, cname, qname, timeout):
+    verify.verify_query(rep.obs, world, cname, qname, G.ROLE_QUERIES[qname](), timeout=timeout)
